@@ -25,6 +25,7 @@ inductive TraceVerdict
   | notFinished                -- the witness does not end in phase `finished`
   | logDiffers (k : Nat)       -- first position where the model's log and the observed log differ
   | resultDiffers (file : Nat) -- the model's result for this file is not the status the CLI printed
+  | exitDiffers                -- exit status 0 although the model run fails, or the other way round
   deriving DecidableEq, Repr
 
 /-- `drun`, reporting the index of the first label that is not enabled -/
@@ -62,8 +63,8 @@ def dwfB (c : DCfg) (mgmt : Str) : Bool :=
     (testCaseName f.path ++ ['_']).isPrefixOf f.db) &&
   c.files.all (fun f => decide (f.db ≠ mgmt))
 
-def traceCheck (c : DCfg) (labels : List DLabel) (observed : List CEv) (tags : List FileResult) :
-    TraceVerdict :=
+def traceCheck (c : DCfg) (labels : List DLabel) (observed : List CEv) (tags : List FileResult)
+    (exitZero : Bool) : TraceVerdict :=
   match drunAt c (dinit c) labels 0 with
   | .error k => .stuck k
   | .ok s =>
@@ -76,6 +77,6 @@ def traceCheck (c : DCfg) (labels : List DLabel) (observed : List CEv) (tags : L
         else
           match firstWrongResult s.results tags c.files.length with
           | some i => .resultDiffers i
-          | none => .ok
+          | none => if dexitOk s = exitZero then .ok else .exitDiffers
 
 end Slt
